@@ -167,6 +167,12 @@ theorem empty_mode_nullfail (g : Graph) (hwf : g.WF) (steps : Steps) :
     (by intro a ha; simp at ha; subst ha; exact hwf.root_lt) (by simp)]
   simp
 
+/-- the three modes on the example graph: the missing package `zz` and the wildcard `z*` -/
+example : evalForward exGraph .nullglob (.cons .child ['z', 'z'] .none .nil) = .error .notFound := by decide
+example : evalForward exGraph .nullset (.cons .child ['z', 'z'] .none .nil) = .ok ([], [0]) := by decide
+example : evalForward exGraph .nullfail (.cons .descendant ['z', 'z'] .none .nil) = .error .noMatch := by decide
+example : evalForward exGraph .nullglob (.cons .descendant ['z', 'z'] .none .nil) = .ok ([], [0]) := by decide
+
 /-! ### 5. reported paths -/
 
 /-- every `(stack, node)` reported by `queryTreePath` is a selected package, reported with a real
@@ -299,5 +305,32 @@ theorem normalisation_preserves_sem (g : Graph) (s : Steps) (a b : Node) :
 theorem normalisation_preserves_holds (g : Graph) (p : Pred) (n : Node) :
     holds g p.normalize n ↔ holds g p n :=
   holds_normalize g p n
+
+/-! ### 8. aliases -/
+
+theorem splitFirstSlash_append (first tail acc : Str) (h : '/' ∉ first) :
+    splitFirstSlash acc (first ++ '/' :: tail) = (acc.reverse ++ first, some tail) := by
+  induction first generalizing acc with
+  | nil => simp [splitFirstSlash]
+  | cons c cs ih =>
+    have hc : c ≠ '/' := fun hc => h (by simp [hc])
+    have hcs : '/' ∉ cs := fun hm => h (List.mem_cons_of_mem _ hm)
+    simp only [List.cons_append, splitFirstSlash, beq_iff_eq, hc, if_false]
+    rw [ih (c :: acc) hcs]
+    simp
+
+/-- an absolute path is never subject to alias substitution -/
+theorem alias_absolute_untouched (aliases : List (Str × Str)) (path : Str) :
+    substAlias aliases ('/' :: path) = '/' :: path := by
+  simp [substAlias, splitFirstSlash]
+
+/-- in a relative path exactly the text before the first `/` is looked up -/
+theorem alias_first_step_only (aliases : List (Str × Str)) (first tail : Str) (h : '/' ∉ first) (hne : first ≠ []) :
+    substAlias aliases (first ++ '/' :: tail) = lookupAlias aliases first ++ '/' :: tail := by
+  unfold substAlias
+  rw [splitFirstSlash_append first tail [] h]
+  cases first with
+  | nil => exact absurd rfl hne
+  | cons c cs => simp
 
 end C18
